@@ -1252,7 +1252,7 @@ class M_run_switch(CoroBase):
             out += [
                 ('sub-pipeline-ends-at-the-selected-case|C09', gv.dest == selected),
                 ('sub-pipeline-starts-at-the-input-node|C09', gv.source == mr.input),
-                ('sub-pipeline-keeps-the-one-of-mode-of-the-scope|C10,C05', z3.And(gv.is_oneof == sub.is_oneof, z3.Not(gv.is_recurrent))),
+                ('sub-pipeline-keeps-the-one-of-mode-of-the-scope|C10,C05,C01', z3.And(gv.is_oneof == sub.is_oneof, z3.Not(gv.is_recurrent))),
                 ('sub-pipeline-ignores-case-edges|C09', snap.getf(g, 'g_fedge') is not None),
                 ('no-yield-between-selection-and-building-the-sub-pipeline|C09',
                  not [y for y in ys if effects.index(ad) < y < effects.index(r) and effects[y].label != r.fn]),
